@@ -1,6 +1,7 @@
 package c08
 
 import (
+	"time"
 	"bytes"
 	"encoding/binary"
 	"encoding/hex"
@@ -284,8 +285,34 @@ func genSCIONBase(t *rapid.T, v *victim, r *rig, target string) (wire.Pkt, []*sl
 }
 
 // cmsgBody builds option-253 bodies: what udp.TimestampFromOOBData expects (a control message), well-formed or hostile.
-func cmsgBody(t *rapid.T) []byte {
-	kind := rapid.SampledFrom([]string{"valid", "two-stamps", "hw-and-sw", "short", "len-lie", "random", "timestampns"}).Draw(t, "cmsg")
+//
+// With near (the transmit timestamp of the request being answered, as a time), well-formed bodies may also
+// carry an instant within nanoseconds to milliseconds of it: before, at and just after the request was sent.
+func cmsgBody(t *rapid.T, near ...time.Time) []byte {
+	kinds := []string{"valid", "two-stamps", "hw-and-sw", "short", "len-lie", "random", "timestampns"}
+	if len(near) > 0 {
+		kinds = append(kinds, "near-valid", "near-timestampns", "near-valid", "near-timestampns")
+	}
+	kind := rapid.SampledFrom(kinds).Draw(t, "cmsg")
+	if kind == "near-valid" || kind == "near-timestampns" {
+		d := rapid.SampledFrom([]int64{-1000000, -1000, -1, 0, 1, 2, 10, 100, 1000, 3000, 10000, 30000, 100000, 1000000, 10000000}).Draw(t, "near-delta-ns")
+		ts := near[0].Add(time.Duration(d))
+		n := 48
+		if kind == "near-timestampns" {
+			n = 16
+		}
+		b := make([]byte, unix.CmsgSpace(n))
+		binary.LittleEndian.PutUint64(b[0:], uint64(unix.CmsgLen(n)))
+		binary.LittleEndian.PutUint32(b[8:], uint32(unix.SOL_SOCKET))
+		if n == 48 {
+			binary.LittleEndian.PutUint32(b[12:], uint32(unix.SO_TIMESTAMPING_NEW))
+		} else {
+			binary.LittleEndian.PutUint32(b[12:], uint32(unix.SCM_TIMESTAMPNS))
+		}
+		binary.LittleEndian.PutUint64(b[16:], uint64(ts.Unix()))
+		binary.LittleEndian.PutUint64(b[24:], uint64(ts.Nanosecond()))
+		return b
+	}
 	b := make([]byte, unix.CmsgSpace(48))
 	h := func(l uint64, level, typ int32) {
 		binary.LittleEndian.PutUint64(b[0:], l)
